@@ -545,46 +545,52 @@ impl RgbaImage {
 // @section compose_spec
 impl CelsData {
     pub open spec fn at(&self, f: int, l: int) -> Option<RawCel> {
-        if 0 <= f < self.data.len() && 0 <= l < self.data[f].len() { self.data[f][l] } else { None }
+        if 0 <= f < self.data.len() && 0 <= l <= 65535 && self.data[f]@.contains_key(l as u16) { Some(self.data[f]@[l as u16]) } else { None }
     }
 }
 /// the cels of one frame in increasing layer order, each with its layer id: what CelsData::frame_cels yields
-pub open spec fn cels_of(row: Seq<Option<RawCel>>) -> Seq<(u32, RawCel)>
-    decreases row.len(),
+/// (the rows are maps from layer index to cel; `cels_upto(m, n)` lists the layers below n)
+pub open spec fn cels_upto(m: Map<u16, RawCel>, n: int) -> Seq<(u32, RawCel)>
+    decreases n,
 {
-    if row.len() == 0 {
+    if n <= 0 {
         Seq::empty()
     } else {
-        let rest = cels_of(row.drop_last());
-        match row.last() {
-            Some(c) => rest.push(((row.len() - 1) as u32, c)),
-            None => rest,
-        }
+        let rest = cels_upto(m, n - 1);
+        if n - 1 <= 65535 && m.contains_key((n - 1) as u16) { rest.push(((n - 1) as u32, m[(n - 1) as u16])) } else { rest }
     }
 }
-pub proof fn lemma_cels_of(row: Seq<Option<RawCel>>)
-    requires row.len() <= 0xffff_ffff,
-    ensures forall|k: int| 0 <= k < cels_of(row).len() ==> {
-        let e = #[trigger] cels_of(row)[k];
-        0 <= (e.0 as int) < row.len() && row[e.0 as int] == Some(e.1)
+pub open spec fn cels_of(m: Map<u16, RawCel>) -> Seq<(u32, RawCel)> { cels_upto(m, 65536) }
+pub proof fn lemma_cels_upto(m: Map<u16, RawCel>, n: int)
+    requires 0 <= n <= 65536,
+    ensures forall|k: int| 0 <= k < cels_upto(m, n).len() ==> {
+        let e = #[trigger] cels_upto(m, n)[k];
+        0 <= (e.0 as int) < n && m.contains_key(e.0 as u16) && m[e.0 as u16] == e.1
     },
-    decreases row.len(),
+    decreases n,
 {
-    if row.len() > 0 {
-        lemma_cels_of(row.drop_last());
-        assert forall|k: int| 0 <= k < cels_of(row).len() implies {
-            let e = #[trigger] cels_of(row)[k];
-            0 <= (e.0 as int) < row.len() && row[e.0 as int] == Some(e.1)
+    if n > 0 {
+        lemma_cels_upto(m, n - 1);
+        assert forall|k: int| 0 <= k < cels_upto(m, n).len() implies {
+            let e = #[trigger] cels_upto(m, n)[k];
+            0 <= (e.0 as int) < n && m.contains_key(e.0 as u16) && m[e.0 as u16] == e.1
         } by {
-            let rest = cels_of(row.drop_last());
+            let rest = cels_upto(m, n - 1);
             if k < rest.len() {
-                assert(cels_of(row)[k] == rest[k]);
-                assert(row.drop_last()[rest[k].0 as int] == row[rest[k].0 as int]);
+                assert(cels_upto(m, n)[k] == rest[k]);
             }
         }
     }
 }
-/// iterator returned by CelsData::frame_cels (TRUSTED shim for `self.data[frame].iter().enumerate().filter_map(..)`:
+pub proof fn lemma_cels_of(m: Map<u16, RawCel>)
+    ensures forall|k: int| 0 <= k < cels_of(m).len() ==> {
+        let e = #[trigger] cels_of(m)[k];
+        0 <= (e.0 as int) <= 65535 && m.contains_key(e.0 as u16) && m[e.0 as u16] == e.1
+    },
+{
+    lemma_cels_upto(m, 65536);
+}
+/// iterator returned by CelsData::frame_cels (TRUSTED shim for `self.data[frame].iter().map(..)` over a BTreeMap row:
 /// yields exactly cels_of(row) in order; executed against this spec by the bounded obligation x_frame_cels_contract)
 #[verifier::external_body]
 pub struct FrameCels<'a> { _p: core::marker::PhantomData<&'a u8> }
@@ -651,7 +657,6 @@ pub open spec fn file_ok(f: &AsepriteFile) -> bool {
             &&& f.framedata.at(fr, l)->0.data.layer_index as int == l
             &&& cel_ok(f, &f.framedata.at(fr, l)->0)
         }
-    &&& forall|fr: int| 0 <= fr < f.framedata.data.len() ==> (#[trigger] f.framedata.data[fr]).len() <= 65536
 }
 /// one non-linked cel over backdrop pixel b
 pub open spec fn content_px(f: &AsepriteFile, c: &RawCel, b: Rgba<u8>, cx: int, cy: int) -> Rgba<u8> {
@@ -758,7 +763,7 @@ pub fn vec_into_iter_enumerate<T>(v: Vec<T>) -> (r: EnumIntoIter<T>)
 
 impl<P> CelsData<P> {
     pub open spec fn at(&self, f: int, l: int) -> Option<RawCel<P>> {
-        if 0 <= f < self.data.len() && 0 <= l < self.data[f].len() { self.data[f][l] } else { None }
+        if 0 <= f < self.data.len() && 0 <= l <= 65535 && self.data[f]@.contains_key(l as u16) { Some(self.data[f]@[l as u16]) } else { None }
     }
 }
 /// RawPixels::validate's verdict: same data; indexed pixels all have a palette entry
@@ -811,8 +816,30 @@ pub open spec fn cell_ok(cd: &CelsData<RawPixels>, src: Option<RawCel<RawPixels>
             && (c.content is Linked ==> (c.content->Linked_0 as int) < cd.num_frames && linkable(cd, c.content->Linked_0 as int, l)),
     }
 }
-pub open spec fn row_ok(cd: &CelsData<RawPixels>, src: Seq<Option<RawCel<RawPixels>>>, dst: Seq<Option<RawCel<Pixels>>>, upto: int, layers: &LayersData, tilesets: &TilesetsById) -> bool {
-    forall|l: int| 0 <= l < upto ==> cell_ok(cd, src[l], #[trigger] dst[l], l, layers, tilesets)
+/// a whole row (map from layer index to cel): same layers before and after, every cel validated
+pub open spec fn row_ok(cd: &CelsData<RawPixels>, src: Map<u16, RawCel<RawPixels>>, dst: Map<u16, RawCel<Pixels>>, layers: &LayersData, tilesets: &TilesetsById) -> bool {
+    &&& forall|l: u16| #[trigger] dst.contains_key(l) <==> src.contains_key(l)
+    &&& forall|l: u16| src.contains_key(l) ==> cell_ok(cd, Some(src[l]), Some(#[trigger] dst[l]), l as int, layers, tilesets)
+}
+/// ... and the first k entries of a row that is being processed in key order
+pub open spec fn row_part(cd: &CelsData<RawPixels>, pairs: Seq<(u16, RawCel<RawPixels>)>, k: int, dst: Map<u16, RawCel<Pixels>>, layers: &LayersData, tilesets: &TilesetsById) -> bool {
+    &&& forall|l: u16| #[trigger] dst.contains_key(l) <==> exists|i: int| 0 <= i < k && (#[trigger] pairs[i]).0 == l
+    &&& forall|i: int| 0 <= i < k ==> cell_ok(cd, Some((#[trigger] pairs[i]).1), Some(dst[pairs[i].0]), pairs[i].0 as int, layers, tilesets)
+}
+pub proof fn lemma_row_done(cd: &CelsData<RawPixels>, pairs: Seq<(u16, RawCel<RawPixels>)>, src: Map<u16, RawCel<RawPixels>>, dst: Map<u16, RawCel<Pixels>>, layers: &LayersData, tilesets: &TilesetsById)
+    requires lists_sorted(pairs, src), row_part(cd, pairs, pairs.len() as int, dst, layers, tilesets),
+    ensures row_ok(cd, src, dst, layers, tilesets),
+{
+    assert forall|l: u16| #[trigger] dst.contains_key(l) <==> src.contains_key(l) by {
+        if src.contains_key(l) {
+            let i = choose|i: int| 0 <= i < pairs.len() && (#[trigger] pairs[i]).0 == l;
+            assert(pairs[i].0 == l);
+        }
+    }
+    assert forall|l: u16| src.contains_key(l) implies cell_ok(cd, Some(src[l]), Some(#[trigger] dst[l]), l as int, layers, tilesets) by {
+        let i = choose|i: int| 0 <= i < pairs.len() && (#[trigger] pairs[i]).0 == l;
+        assert(pairs[i].0 == l && src[l] == pairs[i].1);
+    }
 }
 // @end
 
@@ -1014,5 +1041,70 @@ pub proof fn lemma_ext_rows_index(src: Seq<u8>, w: int, h: int, rows: Seq<usize>
         assert(0 <= 4 * x + c < 4 * (w + 2));
         assert((prev + row)[i] == row[4 * x + c]);
     }
+}
+// @end
+
+// @section btreemap_shim
+/// shim for std::collections::BTreeMap<u16, V> (the sparse rows of the cel table): abstract view as a map;
+/// ASSUMED contracts of new / contains_key / insert / get / get_mut; into_iter yields every pair exactly once in
+/// INCREASING key order (TRUSTED iterator shim - std documents the order)
+#[verifier::external_body]
+#[verifier::reject_recursive_types(K)]
+#[verifier::reject_recursive_types(V)]
+pub struct BTreeMap<K, V> { _p: core::marker::PhantomData<(K, V)> }
+#[verifier::external_body]
+#[verifier::reject_recursive_types(V)]
+pub struct BTreeIntoIter<V> { _p: core::marker::PhantomData<V> }
+pub uninterp spec fn btree_iter_rem<V>(it: BTreeIntoIter<V>) -> Seq<(u16, V)>;
+impl<V> Iterator for BTreeIntoIter<V> {
+    type Item = (u16, V);
+    #[verifier::external_body]
+    fn next(&mut self) -> Option<(u16, V)> { unimplemented!() }
+}
+impl<V> vstd::std_specs::iter::IteratorSpecImpl for BTreeIntoIter<V> {
+    open spec fn obeys_prophetic_iter_laws(&self) -> bool { true }
+    open spec fn remaining(&self) -> Seq<(u16, V)> { btree_iter_rem(*self) }
+    open spec fn will_return_none(&self) -> bool { true }
+    open spec fn decrease(&self) -> Option<nat> { Some(btree_iter_rem(*self).len()) }
+    open spec fn peek(&self, i: int) -> Option<(u16, V)> {
+        if 0 <= i < btree_iter_rem(*self).len() { Some(btree_iter_rem(*self)[i]) } else { None }
+    }
+}
+/// `pairs` lists the map in increasing key order: every pair is an entry, every key occurs, keys strictly increase
+pub open spec fn lists_sorted<V>(pairs: Seq<(u16, V)>, m: Map<u16, V>) -> bool {
+    &&& forall|i: int| 0 <= i < pairs.len() ==> m.contains_key((#[trigger] pairs[i]).0) && m[pairs[i].0] == pairs[i].1
+    &&& forall|k: u16| m.contains_key(k) ==> exists|i: int| 0 <= i < pairs.len() && (#[trigger] pairs[i]).0 == k
+    &&& forall|i: int, j: int| 0 <= i < j < pairs.len() ==> (#[trigger] pairs[i]).0 < (#[trigger] pairs[j]).0
+}
+impl<V> BTreeMap<u16, V> {
+    pub uninterp spec fn view(&self) -> Map<u16, V>;
+    #[verifier::external_body]
+    pub fn new() -> (r: Self)
+        ensures r@ == Map::<u16, V>::empty(),
+    { unimplemented!() }
+    #[verifier::external_body]
+    pub fn contains_key(&self, k: &u16) -> (r: bool)
+        ensures r == self@.contains_key(*k),
+    { unimplemented!() }
+    #[verifier::external_body]
+    pub fn insert(&mut self, k: u16, v: V) -> (r: Option<V>)
+        ensures final(self)@ == old(self)@.insert(k, v),
+    { unimplemented!() }
+    #[verifier::external_body]
+    pub fn get(&self, k: &u16) -> (r: Option<&V>)
+        ensures (r is Some) == self@.contains_key(*k), r is Some ==> *(r->0) == self@[*k],
+    { unimplemented!() }
+    #[verifier::external_body]
+    pub fn get_mut(&mut self, k: &u16) -> (r: Option<&mut V>)
+        ensures
+            match r {
+                Some(c) => old(self)@.contains_key(*k) && *c == old(self)@[*k] && final(self)@ == old(self)@.insert(*k, *final(c)),
+                None => !old(self)@.contains_key(*k) && final(self)@ == old(self)@,
+            },
+    { unimplemented!() }
+    #[verifier::external_body]
+    pub fn into_iter(self) -> (r: BTreeIntoIter<V>)
+        ensures lists_sorted(btree_iter_rem(r), self@),
+    { unimplemented!() }
 }
 // @end
